@@ -950,6 +950,9 @@ namespace avel {
 
     [[nodiscard]]
     AVEL_FINL div_type<vec8x64u> div(vec8x64u x, vec8x64u y) {
+        // A zero divisor in one lane must not trap. The result for that lane is unspecified
+        y = blend(y == vec8x64u{0x00}, vec8x64u{0x01}, y);
+
         //TODO: Implement alternative solution
         auto n0 = extract<0>(x);
         auto n1 = extract<1>(x);
